@@ -91,7 +91,65 @@ def gen_fibersites(man):
              "Definition fiber_sites : list (string * string * string) := [%s]." % ";\n  ".join(
                  "(%s, %s, %s)" % (q(a), q(b), q(c)) for a, b, c in sites), ""]
     man["fiber_sites"] = len(sites)
+    # second table of the same file (round 9): every DEBUG-ONLY construct of yarel/src with file and enclosing function
+    dsites = debug_sites()
+    lines += ["(* GENERATED from yarel/src/*.rs: every debug-only construct - debug_assert!/debug_assert_eq!/debug_assert_ne!,",
+              "   every mention of debug_assertions (cfg!, #[cfg], cfg_attr) and of overflow_checks - with file, enclosing",
+              "   function and (for assertions) the asserted text - do not edit *)",
+              "Definition debug_sites : list (string * string * string) := [%s]." % ";\n  ".join(
+                  "(%s, %s, %s)" % (q(a), q(b), q(c)) for a, b, c in dsites), ""]
+    man["debug_sites"] = len(dsites)
     return "\n".join(lines) + "\n"
+
+
+DEBUG_MACROS = ("debug_assert!", "debug_assert_eq!", "debug_assert_ne!")
+DEBUG_IDS = ("debug_assertions", "overflow_checks")
+
+
+def debug_sites():
+    """(file, enclosing fn, what): code that exists in the checked (dev) configuration only, or whose condition names
+    the checked configuration.  A debug-only assertion is a dev-only way to END a program (panic) and therefore a C10
+    divergence unless its condition is an invariant of every reachable state - each one must be known to the model."""
+    out = []
+    for f in sorted(os.listdir(SRC)):
+        if not f.endswith(".rs"):
+            continue
+        toks = toks_of(f)
+        fns = fn_ranges(toks)
+        for j, t in enumerate(toks):
+            if t.kind != "id":
+                continue
+            if t.text in DEBUG_MACROS or (t.text.rstrip("!") + "!") in DEBUG_MACROS and j + 1 < len(toks) and toks[j + 1].text == "!":
+                k = j + 1
+                while k < len(toks) and toks[k].text not in ("(", "[", "{"):
+                    k += 1
+                e = match_group(toks, k) if k < len(toks) else k
+                out.append((f, enclosing(fns, j), "%s %s" % (t.text.rstrip("!") + "!", text_of(toks, k + 1, e))))
+            elif t.text in DEBUG_IDS:
+                # the attribute/macro the mention sits in: cfg!(..) / #[cfg(..)] / #[cfg_attr(..)] / other
+                k = j
+                depth = 0
+                how = "bare"
+                while k > 0 and j - k < 40:
+                    k -= 1
+                    x = toks[k].text
+                    if x == ")":
+                        depth += 1
+                    elif x == "(":
+                        if depth == 0 and toks[k - 1].text in ("cfg!", "cfg", "cfg_attr"):
+                            how = "cfg!" if toks[k - 1].text == "cfg!" else "#[%s]" % toks[k - 1].text
+                            break
+                        depth = max(0, depth - 1)
+                # an item-level #[cfg] precedes the fn it guards: name the function that follows
+                where = enclosing(fns, j)
+                if how != "cfg!":
+                    nxt = next((toks[m + 1].text for m in range(j, min(j + 40, len(toks) - 1)) if toks[m].text == "fn"), None)
+                    if nxt and where == "?":
+                        where = nxt
+                    elif nxt and how.startswith("#["):
+                        where = where + "/" + nxt
+                out.append((f, where, "%s %s" % (how, t.text)))
+    return out
 
 
 GENERATORS = {"FiberSites.v": gen_fibersites}
